@@ -259,6 +259,22 @@ theorem escaped_value_survives_eraser (v : GoStr) : erase (htmlEscape v) = htmlE
   erase_markerFree _ (markerFree_of_no_angle _ (fun c hc =>
     let h := GL.C02.htmlEscape_no_meta v c hc; ⟨h.1, h.2.1⟩))
 
+/-- **The recorded sentinel finding, as a theorem about the model** — the full statement "an escaped value
+reaches the output unchanged wherever it stands" is false: the value `~☢` is its own escaped form, and
+followed by a closing tag it completes the marker `~☢<`, which the eraser removes (`<p>~☢</p>` is written
+as `<p>/p>`; replayed on the real code by the C02 / C14 checks as KNOWN-FINDING sentinel-in-content). -/
+theorem escaped_value_can_complete_marker :
+    ∃ v t : GoStr, htmlEscape v = v ∧ erase (htmlEscape v ++ t) ≠ htmlEscape v ++ erase t :=
+  ⟨[126, 226, 152, 162], [60, 47, 112, 62], by decide +kernel, by decide +kernel⟩
+
+/-- … and `erase_sublist` is the most that holds there: the output of that buffer is `/p>`. -/
+example : erase ([126, 226, 152, 162] ++ [60, 47, 112, 62]) = [47, 112, 62] := by decide +kernel
+
+/-- the eraser can also bring the halves of a marker together: its output is not always marker-free -/
+theorem erase_output_may_hold_marker :
+    ∃ s : GoStr, Gen.NukeAfter.isPrefixOf (erase s) = true :=
+  ⟨[126, 226, 152, 162] ++ Gen.NukeAfter ++ [60], by decide +kernel⟩
+
 /-- the constants the eraser is built from, as extracted from runtime.go on this run -/
 theorem extracted_markers :
     Gen.NukeAfter = [126, 226, 152, 162, 60] ∧ Gen.NukeBefore = [62, 226, 152, 162, 126] ∧
